@@ -5,8 +5,14 @@ import BigDec.Proofs.Value
 namespace BigDec
 open Generated
 
-/-- the scalar condition on `(LOG2_10 * k as f64) as u64` -/
-def PreOK (pre : Nat → Nat) : Prop := ∀ k, 2 ^ pre k ≤ 10 ^ k
+/-- the scalar condition on `(LOG2_10 * k as f64) as u64`: one less than the estimate is at most
+    `log2 (10^k)`.  (The stronger `2^pre(k) ≤ 10^k` is FALSE for the code's f64 product: at
+    k = 178 898 934 it gives 594 289 395 although 10^k < 2^594289395.)  Demanded for scale
+    differences up to 2^40: beyond that every operand of at most 2^40 bits is below `10^k` anyway. -/
+def PreOK (pre : Nat → Nat) : Prop := ∀ k, k ≤ 2 ^ 40 → 2 ^ (pre k - 1) ≤ 10 ^ k
+
+/-- the code lowers the estimate by at least one bit (regenerated from the source) -/
+theorem highestBitPreSub_pos : 1 ≤ highestBitPreSub := by decide
 
 theorem lt_two_pow_bits' (a : Nat) : a < 2 ^ bits a := by
   unfold bits; split
@@ -20,29 +26,38 @@ theorem bits_pos (b : Nat) (h : b ≠ 0) : 1 ≤ bits b := by unfold bits; rw [i
 
 /-- the bit-length prefilter never claims "less" wrongly -/
 theorem highestBitLess_sound {pre : Nat → Nat} (hp : PreOK pre) (a b k : Nat) (hb : b ≠ 0)
-    (hbits : bits a < 2 ^ 64) (h : highestBitLess pre a b k = true) : a < b * 10 ^ k := by
+    (hbits : bits a < 2 ^ 40) (h : highestBitLess pre a b k = true) : a < b * 10 ^ k := by
   have ha := lt_two_pow_bits' a
   have hb2 := two_pow_bits_le b hb
   have hb1 := bits_pos b hb
   have hk : 1 ≤ 10 ^ k := Nat.one_le_pow _ _ (by norm_num)
-  unfold highestBitLess at h
-  split at h
-  · rename_i hlt
-    have : 2 ^ bits a ≤ 2 ^ (bits b - 1) := Nat.pow_le_pow_right (by norm_num) (by omega)
+  by_cases hkbig : k ≤ 2 ^ 40
+  · unfold highestBitLess at h
+    split at h
+    · rename_i hlt
+      have : 2 ^ bits a ≤ 2 ^ (bits b - 1) := Nat.pow_le_pow_right (by norm_num) (by omega)
+      calc a < 2 ^ bits a := ha
+        _ ≤ 2 ^ (bits b - 1) := this
+        _ ≤ b := hb2
+        _ ≤ b * 10 ^ k := Nat.le_mul_of_pos_right _ (by omega)
+    · rename_i hnlt
+      have hs := highestBitPreSub_pos
+      have hlt : bits a < bits b + (pre k - highestBitPreSub) := by
+        split at h
+        · simpa using h
+        · rename_i hnfit; omega
+      have h1 : 2 ^ bits a ≤ 2 ^ (bits b - 1 + (pre k - 1)) := Nat.pow_le_pow_right (by norm_num) (by omega)
+      calc a < 2 ^ bits a := ha
+        _ ≤ 2 ^ (bits b - 1 + (pre k - 1)) := h1
+        _ = 2 ^ (bits b - 1) * 2 ^ (pre k - 1) := by rw [pow_add]
+        _ ≤ b * 10 ^ k := Nat.mul_le_mul hb2 (hp k hkbig)
+  · -- a scale difference beyond 2^40: any operand of fewer than 2^40 bits is below 10^k
+    have h1 : 2 ^ bits a ≤ 2 ^ k := Nat.pow_le_pow_right (by norm_num) (by omega)
+    have h2 : 2 ^ k ≤ 10 ^ k := Nat.pow_le_pow_left (by norm_num) k
+    have hb0 : 1 ≤ b := by omega
     calc a < 2 ^ bits a := ha
-      _ ≤ 2 ^ (bits b - 1) := this
-      _ ≤ b := hb2
-      _ ≤ b * 10 ^ k := Nat.le_mul_of_pos_right _ (by omega)
-  · rename_i hnlt
-    have hlt : bits a < bits b + pre k := by
-      split at h
-      · simpa using h
-      · rename_i hnfit; omega
-    have h1 : 2 ^ bits a ≤ 2 ^ (bits b - 1 + pre k) := Nat.pow_le_pow_right (by norm_num) (by omega)
-    calc a < 2 ^ bits a := ha
-      _ ≤ 2 ^ (bits b - 1 + pre k) := h1
-      _ = 2 ^ (bits b - 1) * 2 ^ pre k := by rw [pow_add]
-      _ ≤ b * 10 ^ k := Nat.mul_le_mul hb2 (hp k)
+      _ ≤ 10 ^ k := le_trans h1 h2
+      _ ≤ b * 10 ^ k := Nat.le_mul_of_pos_left _ hb0
 
 /-! ### u32 limbs -/
 
@@ -248,7 +263,7 @@ theorem eqDigitwise_spec (A B k : Nat) (hA : A ≠ 0) (hB : B ≠ 0) :
 
 /-- **scaled equality of magnitudes**: all three paths decide `A = B · 10^k` -/
 theorem eqScaled_spec {pre : Nat → Nat} (hp : PreOK pre) (A B k : Nat) (hA : A ≠ 0) (hB : B ≠ 0)
-    (hbits : bits A < 2 ^ 64) : eqScaled pre A B k = true ↔ A = B * 10 ^ k := by
+    (hbits : bits A < 2 ^ 40) : eqScaled pre A B k = true ↔ A = B * 10 ^ k := by
   unfold eqScaled
   split
   · rename_i h
@@ -339,8 +354,8 @@ theorem sgnOrd_eq_one_iff (i : Int) : sgnOrd i = 1 ↔ i = 0 := by
     · split at h <;> omega
   · intro h; subst h; simp
 
-/-- operands the theorems speak about: fewer than 2^64 bits / 2^63 decimal digits -/
-def Small (d : Dec) : Prop := bits d.int.natAbs < 2 ^ 64 ∧ numDigits d.int.natAbs < 2 ^ 63
+/-- operands the theorems speak about: fewer than 2^40 bits (128 GiB of digits) -/
+def Small (d : Dec) : Prop := bits d.int.natAbs < 2 ^ 40 ∧ numDigits d.int.natAbs < 2 ^ 63
 
 theorem eqDec_gt_case {pre : Nat → Nat} (hp : PreOK pre) (l r : Dec) (hl0 : l.int ≠ 0) (hr0 : r.int ≠ 0)
     (hs : sgnOrd l.int = sgnOrd r.int) (hsm : Small l) (hgt : r.scale < l.scale) :
@@ -563,7 +578,7 @@ theorem compareScaledUints_spec (w a b k : Nat) (hb : b ≠ 0) (r : Ordering)
 
 /-- **`compare_scaled_biguints a b k` compares `a` with `b · 10^k`** through every path -/
 theorem compareScaled_spec {pre : Nat → Nat} (hp : PreOK pre) (a b k : Nat) (ha : a ≠ 0) (hb : b ≠ 0)
-    (hbits : bits a < 2 ^ 64) : compareScaled pre a b k = compare a (b * 10 ^ k) := by
+    (hbits : bits a < 2 ^ 40) : compareScaled pre a b k = compare a (b * 10 ^ k) := by
   unfold compareScaled
   split
   · rename_i hk; subst hk; simp
